@@ -165,6 +165,19 @@ def make_blocks(indices, sectors, fill=("seq", 1), dtype="float64"):
             r = len(sv)
             store[s] = np.asarray((Uo[:, :r] * sv) @ Vo[:, :r].conj().T, dtype=dtype)
         return {s: store[s] for s in sectors}
+    if fill[0] in ("zerocol", "zeroblock"):
+        # designed degenerate data: an exactly zero leading column in every block / one exactly zero block
+        rng = np.random.default_rng([int(fill[1]), 4242])
+        cplx = str(dtype).startswith("complex")
+        store = {}
+        for k, s in enumerate(sorted(sectors)):
+            a = rng.normal(size=shapes[s]) + (1j * rng.normal(size=shapes[s]) if cplx else 0)
+            if fill[0] == "zerocol" and len(shapes[s]) == 2:
+                a[:, 0] = 0
+            if fill[0] == "zeroblock" and k == 0:
+                a = a * 0
+            store[s] = np.asarray(a, dtype=dtype)
+        return {s: store[s] for s in sectors}
     if fill[0] in ("rand", "rank1", "herm", "dominant", "posdef"):
         # designed float data for the linear-algebra checks (values are not an enumerated dimension)
         rng = np.random.default_rng([int(fill[1]), 12345])
@@ -273,6 +286,14 @@ def apply_derive(x, op):
         return x.transpose(tuple(op[1]))
     if name == "sync_charges":
         return x.sync_charges()
+    if name == "phase_flip":
+        return x.phase_flip(*op[1])
+    if name == "phase_sector_all":
+        # a pending sign on every other stored sector (through the public phase_sector)
+        for k, sec in enumerate(sorted(x.blocks)):
+            if k % 2 == op[1]:
+                x = x.phase_sector(sec)
+        return x
     raise ValueError(op)
 
 
